@@ -51,7 +51,7 @@ def guard_semantics(p, P0, A, k_adv, SZ, fn, m):
     """Decide whether the branch conditions of path p imply 'the item fits' (size <= endp - old cursor), imply the
     opposite, or neither.  Pointers are modelled as 64-bit signed offsets from the old cursor (objects do not wrap the
     address space); everything after ptrtoint / pointer difference is bit-precise.  Quantified over every room
-    r = endp - old cursor with |r| < 2^40 (the cursor may already be far beyond the end) and every size (32 bits).
+    r = endp - old cursor with |r| < 2^31 (the cursor may already be beyond the end) and every size (32 bits).
     -> ('fits' | 'nofit' | 'mixed' | None, text, loc)"""
     from ..domains.bdd import BDD, BV
     from ..domains.bvexec import expr_bv, Top
@@ -114,8 +114,12 @@ def guard_semantics(p, P0, A, k_adv, SZ, fn, m):
                 BB = bv.b
                 return [{"eq": lambda: bv.eq(a, b), "ne": lambda: BB.NOT(bv.eq(a, b)), "slt": lambda: bv.slt(a, b),
                          "sgt": lambda: bv.slt(b, a), "sle": lambda: BB.NOT(bv.slt(b, a)), "sge": lambda: BB.NOT(bv.slt(a, b))}[pr]()]
-        if x[0] == "call" and x[1] in ("rf_pack_remaining", "rf_pack_consumed") and len(x) > 3:
-            return None
+        if x[0] == "call" and x[1] == "rf_pack_remaining" and len(x) > 3:
+            # int rf_pack_remaining(): endp - cursor at the moment of the call, narrowed to int
+            ks = [k for k, e in enumerate(p.events) if e.kind == "call" and e.res == x]
+            if ks:
+                cur = bv.const(0, 64) if ks[0] < k_adv else sz64
+                return bv.trunc(bv.sub(R, cur), 32)
         return None
 
     def conv(x):
@@ -124,14 +128,16 @@ def guard_semantics(p, P0, A, k_adv, SZ, fn, m):
         except (Top, KeyError, IndexError, TypeError):
             return None
 
-    # |r| < 2^40
-    lim = bv.const(1 << 40, 64)
+    # |r| < 2^31: the property's scope (buffer and total requested bytes below 2^31; the library's own accounting,
+    # rf_pack_remaining / rf_pack_consumed, is an int)
+    lim = bv.const(1 << 31, 64)
     dom = B.AND(bv.slt(R, lim), bv.slt(bv.sub(bv.const(0, 64), lim), R))
     fits = B.NOT(bv.slt(R, sz64))
     pc = dom
     used = []
     for c, taken, inst in p.conds:
-        if not paths.contains(c, lambda x: x[0] == "ld" and fld(x[1], fn, m) in ("endp", "p")):
+        if not paths.contains(c, lambda x: (x[0] == "ld" and fld(x[1], fn, m) in ("endp", "p")) or
+                              (x[0] == "call" and x[1] == "rf_pack_remaining")):
             continue
         if inst is not None and getattr(inst, "op", None) == "switch":
             return None, "switch on a cursor-dependent value is not modelled", inst.loc
